@@ -524,6 +524,7 @@ type SolveOpts struct {
 	AllSolvers bool // thorough: run all solvers, disagreement = error
 	Single    bool // scan: z3-new only
 	NoBatch   bool
+	preload   string // witness runs: source of a preloaded file
 	Dir       string
 	Seed      int
 }
